@@ -513,6 +513,10 @@ def plan_stages(run):
     campaign(run, "rate-campaign", {"S"}, on(lambda s, r: drivers.rate_campaign(s, r, n)))
     campaign(run, "order-groups", {"S"}, on(lambda s, r: drivers.order_groups(s, r, q(run, 150, 2000))))
     campaign(run, "extremes", {"S"}, on(lambda s, r: drivers.extremes_campaign(s, r, q(run, 300, 5000), ops=("rate",))))
+    # the inside of the predictions: the CDF's arguments against the rule's standardised differences, the aggregates, the
+    # quantile asked for, the ranking
+    campaign(run, "predict-campaign", {"S"}, on(lambda s, r: drivers.predict_campaign(s, r, q(run, 400, 8000))))
+    campaign(run, "predict-integer-grid", {"S"}, on(lambda s, r: drivers.integer_grid(s, r, ("win", "draw", "rank"))))
     # no coverage requirement: a refactoring may remove or rename a helper, which then simply yields no record
     # (which stage kinds were observed is in the report's class_counts)
     return {"rule": "the helpers' observed arguments and results during rate() against Outcome!SortPerm / RunIdx / Pos / Ladder and "
